@@ -372,7 +372,13 @@ impl<'a> Context<'a> {
     fn peek(&self) -> (&Token, Span) {
         let token = self.tokens.get(self.curr).unwrap_or(&T::EOF);
         let zero_span = Span::zero(self.file_id);
-        let span = self.spans.get(self.curr).unwrap_or(&zero_span).clone();
+        // Past the end of the file we're still on the line of the last token.
+        let span = self
+            .spans
+            .get(self.curr)
+            .or_else(|| self.spans.last())
+            .unwrap_or(&zero_span)
+            .clone();
         (token, span)
     }
 
